@@ -2,6 +2,7 @@ import SciVerif.Drive.Util
 import SciVerif.Model.C17
 import SciVerif.Lemmas.C17k
 import SciVerif.Lemmas.C17l
+import SciVerif.Lemmas.C17m
 open Lean SciVerif.Drive
 
 namespace SciVerif.C17.Drive
@@ -186,7 +187,10 @@ def parseSources (tbl : UnitTable) : List Json → List (Str × List Node) → L
     let items ← (← getList (← field j "items")).mapM getItem
     match parseC tbl { Env.empty with sources := acc, srcUnits := ua } items with
     | .error e => throw s!"source: {e}"
-    | .ok env => parseSources tbl rest (acc ++ [(name, env.nodes)]) (ua ++ [(name, env.units)])
+    | .ok env =>
+      -- `withSource`: the installation step of C17_refinement_with_source_partial / C17_inv_with_source
+      let e' := withSource { Env.empty with sources := acc, srcUnits := ua } name env
+      parseSources tbl rest e'.sources e'.srcUnits
 
 def specSources (tbl : UnitTable) : List Json → List (Str × List SNode) → List (Str × UnitDefs) →
     Except String (Option (List (Str × List SNode) × List (Str × UnitDefs)))
@@ -196,7 +200,9 @@ def specSources (tbl : UnitTable) : List Json → List (Str × List SNode) → L
     let stmts ← (← getList (← field j "stmts")).mapM getStmt
     match sRunC tbl (⟨[], acc, false, [], ua⟩, none) stmts with
     | .error _ => pure none
-    | .ok (env, _) => specSources tbl rest (acc ++ [(name, env.nodes)]) (ua ++ [(name, env.units)])
+    | .ok (env, _) =>
+      let s' := sWithSource ⟨[], acc, false, [], ua⟩ name env
+      specSources tbl rest s'.sources s'.srcUnits
 
 /-- name of `env.nodes[-1]` before every line of the main text (what a property line acts on) -/
 def lastTrace (tbl : UnitTable) : CEnv → List Item → List Json
@@ -422,9 +428,17 @@ def runTie (tbl : UnitTable) (mj sj : Json) : Except String Json := do
         | .ok env => Json.bool (invB tbl env)
         | .error _ => Json.null
       let badNodes := (benv.nodes ++ benv.sources.flatMap (fun s => s.2)).filter (fun n => !goodB tbl n)
+      -- the base stage of C17_refinement_on_base_partial: `invB` on the environment the base text
+      -- starts from, `runNB` on the base text read as `NLine`s
+      let baseNested : Json ← if baseJ == Json.null then pure Json.null else do
+        let sb := fieldD sj "base"
+        let baseStmts ← if sb == Json.null then pure [] else (← getList sb).mapM getStmt
+        pure (jstr (nestedCover tbl env0 baseItems baseStmts))
       pure (Json.mkObj [("imports", Json.arr ((sites.zip imps).map tieOne).toArray),
                         ("frag", Json.bool frag),
                         ("nested", jstr (nestedCover tbl benv mainItems mainStmts)),
+                        ("inv0", Json.bool (invB tbl env0)),
+                        ("base_nested", baseNested),
                         ("inv", Json.bool (invB tbl benv)),
                         ("inv_bad", jarr (fun (n : Node) => jS n.name) badNodes),
                         ("inv_declared", Json.bool (badNodes.any (fun n => n.value.isNone))),
